@@ -2,7 +2,9 @@
 
 Supported nodes: LITERAL, NOT_LITERAL, IN (literals, ranges, \\d, \\s, \\w negation excluded), ANY, BRANCH,
 SUBPATTERN (flags-free), MAX_REPEAT / MIN_REPEAT, AT_BEGINNING (only in head position), AT_END (only in tail
-position; = epsilon | "\\n").  Anything else raises OutOfSubset.  `P.match(s)`/`P.fullmatch` semantics:
+position; = epsilon | "\\n"), look-aheads (?=X) (?!X) in a sequence that runs to the end of the pattern (intersection with /
+complement of X.Sigma*), conditional groups (?(n)yes|no) (alternatives indexed by the participating groups).  Anything else
+raises OutOfSubset.  `P.match(s)`/`P.fullmatch` semantics:
 a backtracking engine finds a match iff one exists, so  P.match(s) succeeds  <=>  s in L(tree) . Sigma*  and, for
 a pattern ending in `$`,  <=>  s in L(body) . (eps | "\\n").
 """
@@ -110,17 +112,149 @@ def _negate(rs):
     return out
 
 
-def tr_seq(seq, head, tail, flags):
+def _lookahead_lang(body, flags):
+    """language of the REST OF THE STRING that a look-ahead body admits: body . Sigma*, or body . (eps | "\n") when the body
+    itself ends in `$`"""
+    body = list(body)
+    if body and body[-1][0] is sre_c.AT and body[-1][1] in (sre_c.AT_END, sre_c.AT_END_STRING):
+        return tr_seq(body, False, True, flags)
+    return z3.Concat(tr_seq(body, False, False, flags), z3.Full(z3.ReSort(z3.StringSort())))
+
+
+_SIGMA_STAR = lambda: z3.Full(z3.ReSort(z3.StringSort()))
+
+
+def _closes(op, av):
+    """does this (last) item take care of the end of the string itself (an end anchor on every path through it)?"""
+    if op is sre_c.AT and av in (sre_c.AT_END, sre_c.AT_END_STRING):
+        return True
+    return op in (sre_c.BRANCH, sre_c.SUBPATTERN, sre_c.ASSERT, sre_c.ASSERT_NOT, sre_c.GROUPREF_EXISTS)   # handled inside
+
+
+def tr_seq(seq, head, tail, flags, open_=False):
+    """open_: the sequence is in tail position of a pattern used with .match(): a path that does not end in an end anchor
+    may be followed by anything (Sigma* is appended on exactly those paths)"""
     items = list(seq)
     out = []
+    if not items and tail and open_:
+        return _SIGMA_STAR()
     for i, (op, av) in enumerate(items):
         h = head and i == 0
         t = tail and i == len(items) - 1
-        out.append(tr(op, av, h, t, flags))
+        if op in (sre_c.ASSERT, sre_c.ASSERT_NOT):
+            # (?=X) / (?!X) constrain the rest of the string: only where this sequence runs to the end of the pattern
+            d, body = av
+            if d < 0:
+                raise OutOfSubset('look-behind')
+            if not tail:
+                raise OutOfSubset('look-ahead not in a sequence that ends the pattern')
+            la = _lookahead_lang(body, flags)
+            rest = tr_seq(items[i + 1:], False, True, flags, open_)
+            out.append(z3.Intersect(rest, la if op is sre_c.ASSERT else z3.Complement(la)))
+            return _concat(out)
+        out.append(tr(op, av, h, t, flags, open_ and t))
+        if t and open_ and not _closes(op, av):
+            out.append(_SIGMA_STAR())
     return _concat(out)
 
 
-def tr(op, av, head, tail, flags):
+# ---- conditional groups (?(n)yes|no): alternatives indexed by the set of referenced groups that took part --------------
+def _cond_groups(seq, acc):
+    for op, av in seq:
+        if op is sre_c.GROUPREF_EXISTS:
+            acc.add(av[0])
+            _cond_groups(av[1], acc)
+            if av[2] is not None:
+                _cond_groups(av[2], acc)
+        elif op is sre_c.BRANCH:
+            for a in av[1]:
+                _cond_groups(a, acc)
+        elif op is sre_c.SUBPATTERN:
+            _cond_groups(av[3], acc)
+        elif op in (sre_c.MAX_REPEAT, sre_c.MIN_REPEAT):
+            _cond_groups(av[2], acc)
+        elif op in (sre_c.ASSERT, sre_c.ASSERT_NOT):
+            _cond_groups(av[1], acc)
+    return acc
+
+
+def _mentions(seq, rel):
+    """does the sequence contain a conditional or a capturing group the conditionals refer to?"""
+    for op, av in seq:
+        if op is sre_c.GROUPREF_EXISTS:
+            return True
+        if op is sre_c.SUBPATTERN:
+            if av[0] in rel or _mentions(av[3], rel):
+                return True
+        elif op is sre_c.BRANCH:
+            if any(_mentions(a, rel) for a in av[1]):
+                return True
+        elif op in (sre_c.MAX_REPEAT, sre_c.MIN_REPEAT):
+            if _mentions(av[2], rel):
+                return True
+        elif op in (sre_c.ASSERT, sre_c.ASSERT_NOT):
+            if _mentions(av[1], rel):
+                return True
+    return False
+
+
+def _merge(d, G, r):
+    d[G] = z3.Union(d[G], r) if G in d else r
+
+
+def tr_seq_g(seq, head, tail, flags, rel, G0, open_=False):
+    """{set of relevant groups that took part: regex} for a sequence entered with the groups G0 already matched.  A
+    backtracking engine succeeds iff SOME path succeeds, and on every path each group either took part or not, so the
+    language is the union over these alternatives."""
+    items = list(seq)
+    cur = {G0: EPS()}
+    if not items and tail and open_:
+        return {G0: _SIGMA_STAR()}
+    for i, (op, av) in enumerate(items):
+        h = head and i == 0
+        t = tail and i == len(items) - 1
+        new = {}
+        for G, r in cur.items():
+            for G2, r2 in tr_g(op, av, h, t, flags, rel, G, open_ and t).items():
+                if t and open_ and not _closes(op, av):
+                    r2 = z3.Concat(r2, _SIGMA_STAR())
+                _merge(new, G2, z3.Concat(r, r2))
+        cur = new
+    return cur
+
+
+def tr_g(op, av, head, tail, flags, rel, G, open_=False):
+    if op is sre_c.GROUPREF_EXISTS:
+        g, yes, no = av
+        return tr_seq_g(yes if g in G else (no if no is not None else []), False, tail, flags, rel, G, open_)
+    if op is sre_c.BRANCH:
+        out = {}
+        for alt in av[1]:
+            for G2, r in tr_seq_g(alt, head, tail, flags, rel, G, open_).items():
+                _merge(out, G2, r)
+        return out
+    if op is sre_c.SUBPATTERN:
+        group, add, dele, p = av
+        if add or dele:
+            raise OutOfSubset('inline regex flags')
+        out = {}
+        for G2, r in tr_seq_g(p, head, tail, flags, rel, G, open_).items():
+            _merge(out, (G2 | {group}) if group in rel else G2, r)
+        return out
+    if op in (sre_c.MAX_REPEAT, sre_c.MIN_REPEAT) and _mentions(av[2], rel):
+        lo, hi, p = av
+        if (lo, hi) != (0, 1):
+            raise OutOfSubset('a conditional group or a group it refers to inside a repeat other than ?')
+        out = {G: EPS()}
+        for G2, r in tr_seq_g(p, False, False, flags, rel, G).items():
+            _merge(out, G2, r)
+        return out
+    if op in (sre_c.ASSERT, sre_c.ASSERT_NOT):
+        raise OutOfSubset('look-ahead in a pattern with conditional groups')
+    return {G: tr(op, av, head, tail, flags, open_)}
+
+
+def tr(op, av, head, tail, flags, open_=False):
     if op is sre_c.LITERAL:
         return z3.Re(_ch(av))
     if op is sre_c.NOT_LITERAL:
@@ -133,12 +267,12 @@ def tr(op, av, head, tail, flags):
             rs = _negate(rs)
         return _union(_range(a, b) for a, b in rs)
     if op is sre_c.BRANCH:
-        return _union(tr_seq(alt, head, tail, flags) for alt in av[1])
+        return _union(tr_seq(alt, head, tail, flags, open_) for alt in av[1])
     if op is sre_c.SUBPATTERN:
         group, add, dele, p = av
         if add or dele:
             raise OutOfSubset('inline regex flags')
-        return tr_seq(p, head, tail, flags)
+        return tr_seq(p, head, tail, flags, open_)
     if op in (sre_c.MAX_REPEAT, sre_c.MIN_REPEAT):
         lo, hi, p = av
         body = tr_seq(p, False, False, flags)
@@ -190,9 +324,12 @@ def to_z3(pattern, mode='match'):
     if key in _cache:
         return _cache[key]
     tree, flags = parse(pattern)
-    r = tr_seq(tree, True, True, flags)
-    if mode == 'prefix':
-        r = z3.Concat(r, z3.Full(z3.ReSort(z3.StringSort())))
+    rel = _cond_groups(tree, set())
+    op_ = (mode == 'prefix')       # .match(): whatever follows a path without an end anchor is admitted, path by path
+    if rel:
+        r = _union(tr_seq_g(tree, True, True, flags, frozenset(rel), frozenset(), op_).values())
+    else:
+        r = tr_seq(tree, True, True, flags, op_)
     _cache[key] = r
     return r
 
@@ -217,7 +354,7 @@ def ends_with_dollar(pattern):
 
 def lang(pattern):
     """L = { s : pattern.match(s) is not None }"""
-    return to_z3(pattern, 'match' if ends_with_dollar(pattern) else 'prefix')
+    return to_z3(pattern, 'prefix')
 
 
 # ---- queries ---------------------------------------------------------------------
